@@ -277,6 +277,38 @@ func init() {
 	}
 }
 
+func init() {
+	// hook.hasPermChannels decodes the metadata with encoding/json (reflection-based; not encodable). It is
+	// stubbed as a deterministic function of the metadata bytes: whether the documented structure is present
+	// and which (<= 2) channels it lists. Which byte strings encoding/json accepts is outside the claim.
+	models["github.com/initia-labs/OPinit/x/ophost/types/hook.hasPermChannels"] = func(e *Exec, a []Value) []Value {
+		meta := e.bytesTerm(asSlice(e, a[0]))
+		pmT := e.W.typeByName("github.com/initia-labs/OPinit/x/ophost/types/hook", "PermsMetadata")
+		pcT := e.W.typeByName("github.com/initia-labs/OPinit/x/ophost/types/hook", "PortChannelID")
+		data := e.zero(pmT).(*StructV)
+		if !e.decideBool(App("json.hasPerm", BoolSort, meta)) {
+			return []Value{False, data}
+		}
+		n := App("json.nchan", IntSort, meta)
+		alts := []*Term{Eq(n, IntI(0)), Eq(n, IntI(1)), Not(Or(Eq(n, IntI(0)), Eq(n, IntI(1))))}
+		k := e.decide(alts)
+		if k == 2 {
+			e.assertPC(Eq(n, IntI(2)))
+		}
+		arr := &ArrayV{E: make([]Value, k)}
+		for i := range arr.E {
+			pc := e.zero(pcT).(*StructV)
+			pc.F[0] = App(fmt.Sprintf("json.port%d", i), StrSort, meta)
+			pc.F[1] = App(fmt.Sprintf("json.chan%d", i), StrSort, meta)
+			arr.E[i] = pc
+		}
+		if k > 0 {
+			data.F[0] = &SliceV{A: e.newObj(arr, "permchannels"), Len: k, Cap: k}
+		}
+		return []Value{True, data}
+	}
+}
+
 // accountAddr: address of an account value given to SetAccount
 func (e *Exec) accountAddr(v Value) *Term {
 	if iv, ok := v.(IfaceV); ok {
